@@ -498,6 +498,21 @@ fn read_operations_since_from_file(
                 total_size,
                 no_more_smaller
             );
+            // Records written with the same timestamp (one snapshot of several databases) are
+            // adjacent: go back to the first record that is not older than `since`
+            let mut first_point = seek_point;
+            let mut previous_time_buffer = [0; OP_TIME_SIZE];
+            while first_point >= size_as_u64 {
+                f.seek(SeekFrom::Start(first_point - size_as_u64)).unwrap();
+                f.read(&mut previous_time_buffer).unwrap();
+                if u64::from_le_bytes(previous_time_buffer) < since {
+                    break;
+                }
+                first_point = first_point - size_as_u64;
+                opp_time = u64::from_le_bytes(previous_time_buffer);
+            }
+            f.seek(SeekFrom::Start(first_point + OP_TIME_SIZE as u64))
+                .unwrap();
             while let Ok(byte_read) = f.read(&mut key_buffer) {
                 if byte_read == 0 {
                     break;
